@@ -30,7 +30,7 @@ class C13(Prop):
     floors = {'quick': (300, 80), 'thorough': (5000, 1500)}
     must_reach = ['discrete_time_interpreter:DiscreteTimeInterpreter.update_sampling_violation_counter']
     quick_cases = 3000
-    thorough_cases = 600000
+    thorough_cases = 2000000
 
     def shrinkable(self, case):
         return False
